@@ -183,8 +183,30 @@ def check_fold(ctx, repo: Repo, pid: str):
             ctx.check((amap is None or amap in gn), "FOLD", f"{tag}.copy.guard", "the copy is guarded by membership of j in the antipode map",
                       where, src(par.test), witness=src(par.test))
     if not found_copy:
-        ctx.violate("FOLD", f"{tag}.copy", "no fold store M[i][opp(j)] = M[i][j] found: antipodal neighbours are not folded onto the "
-                    "upper half", where, "adj_matrix[i][ind2opp_index[j]] = adj_matrix[i][j]", witness=f"{len(copies)} stores into {M}")
+        # vectorised forms: a column-wise copy is fine, an ADDITION of the two copies is not (pairs adjacent through both +q and -q
+        # would get twice the distance / border)
+        additive = []
+        colcopy = []
+        for st in ast.walk(body):
+            if isinstance(st, (ast.Assign, ast.AugAssign)):
+                val = st.value
+                tg = st.targets[0] if isinstance(st, ast.Assign) else st.target
+                subs = [x for x in ast.walk(val) if isinstance(x, ast.Subscript) and isinstance(x.value, ast.Name) and x.value.id == M]
+                if isinstance(st, ast.AugAssign) and isinstance(st.op, ast.Add) and isinstance(tg, ast.Subscript) and subs:
+                    additive.append(st)
+                elif isinstance(val, ast.BinOp) and isinstance(val.op, ast.Add) and len(subs) >= 2:
+                    additive.append(st)
+                elif isinstance(tg, ast.Subscript) and isinstance(tg.value, ast.Name) and tg.value.id == M and isinstance(val, ast.Subscript) and \
+                        isinstance(val.value, ast.Name) and val.value.id == M and isinstance(tg.slice, ast.Tuple):
+                    colcopy.append(st)
+        if additive:
+            ctx.violate("FOLD", f"{tag}.copy", "the fold ADDS the entry of column j to that of column opp(j) instead of copying it: a pair that "
+                        "touches through both +q_j and -q_j gets twice the geodesic distance / border", where, norm_stmt(additive[0])[:200],
+                        witness="e.g. cube4D N=4: distance pi instead of pi/2")
+        elif colcopy:
+            ctx.ok("FOLD", f"{tag}.copy", "vectorised fold copies columns of M onto their antipodal columns", where, norm_stmt(colcopy[0])[:160])
+        else:
+            ctx.inconclusive("FOLD", f"{tag}.copy", "fold store M[i][opp(j)] = M[i][j] not recognised", where, witness=f"{len(copies)} stores into {M}")
 
     # ---------------- extraction with one index list
     ex_names = set()
